@@ -473,6 +473,24 @@ class Ctx:
         if r.returncode != 0:
             raise MachineryError("harness command %s failed: %s" % (args, r.stdout[-1500:]))
 
+    def apalache_inductive(self, res, spec, timeout_s=300):
+        """unbounded safety of a small typed spec: Init => IndInv, IndInv /\\ Next => IndInv', IndInv => the property"""
+        sd = prepare_spec_dir(self.scratch)
+        outdir = os.path.join(self.scratch, "apalache-out")
+        steps = [("Init => IndInv", ["--init=Init", "--inv=IndInv", "--length=0"]),
+                 ("IndInv /\\ Next => IndInv'", ["--init=IndInit", "--inv=IndInv", "--length=1"]),
+                 ("IndInv => NoLossNoDup", ["--init=IndInit", "--inv=NoLossNoDup", "--length=0"]),
+                 ("IndInv => EofOnlyAfterAll", ["--init=IndInit", "--inv=EofOnlyAfterAll", "--length=0"])]
+        t0 = time.time()
+        for name, args in steps:
+            cmd = ["timeout", str(timeout_s), "apalache-mc", "check", "--out-dir=" + outdir, "--cinit=ConstInit"] + args + [spec]
+            r = run(cmd, cwd=sd, stdout=subprocess.PIPE, stderr=subprocess.STDOUT, text=True)
+            if "EXITCODE: OK" not in r.stdout:
+                raise MachineryError("Apalache could not discharge '%s' of %s:\n%s" % (name, spec, r.stdout[-1500:]))
+        res.stages.append({"cmd": "apalache-mc check (inductive invariant, unbounded stream length) " + spec,
+                           "obligations": len(steps), "discharged": len(steps), "wall_s": round(time.time() - t0, 1)})
+        res.extra["apalache.obligations_discharged"] = len(steps)
+
     def check(self, res, spec, cfg, timeout_s=None, **kw):
         timeout_s = timeout_s or (600 if self.quick else 3600)
         info = tlc_check(self.scratch, spec, cfg, timeout_s, **kw)
